@@ -222,8 +222,12 @@ type c3Run struct {
 	slotsCON  map[int]bool
 	nextEmit  int
 	bad       string
+	hung      bool // a witness did not arrive within the watchdog time: the rest of the script is skipped
 	items     []string
 }
+
+// number of cases of this run in which something hung; generation stops early after a few
+var c3Hangs int
 
 func (r *c3Run) setup() {
 	r.tcp = r.sc.tr[0] == 't'
@@ -353,7 +357,7 @@ func (r *c3Run) teardown() {
 		if !c.returned {
 			select {
 			case <-c.done:
-			case <-time.After(c3Timeout):
+			case <-time.After(time.Second):
 			}
 		}
 	}
@@ -502,6 +506,9 @@ func (r *c3Run) collect(into *[]c3Ret) {
 // waitFor waits until pred holds (a state-change witness), polling the wire and the returns
 func (r *c3Run) waitFor(into *[]c3Ret, pred func() bool) bool {
 	deadline := time.Now().Add(c3Timeout)
+	if r.hung {
+		deadline = time.Now().Add(500 * time.Millisecond)
+	}
 	for {
 		r.drainWire()
 		r.collect(into)
@@ -509,6 +516,10 @@ func (r *c3Run) waitFor(into *[]c3Ret, pred func() bool) bool {
 			return true
 		}
 		if time.Now().After(deadline) {
+			if !r.hung {
+				r.hung = true
+				c3Hangs++
+			}
 			return false
 		}
 		time.Sleep(50 * time.Microsecond)
@@ -702,7 +713,7 @@ func (r *c3Run) run() string {
 	r.setup()
 	defer r.teardown()
 	for _, o := range r.sc.ops {
-		if r.bad != "" {
+		if r.bad != "" || r.hung {
 			break
 		}
 		switch o.kind {
@@ -1022,6 +1033,9 @@ func runC03(a runArgs) error {
 	e.ShardSize = 120
 	e.Rule = "event scripts on a real udp/client.Conn (in-memory session) and tcp/client.Conn (net.Pipe), block-wise on/off: 1-8 calls (Do with caller-chosen tokens, Get/Post with library tokens; CON/NON) issued one by one or as a burst of goroutines released together, answered in a random order piggybacked / after an empty ACK / before the ACK / as separate CON or NON, with retransmitted and re-sent duplicates, foreign tokens, cancellations, equal tokens (second call while the first is outstanding, bursts with one token, re-use after completion) and the CRC-64-colliding token pair. Distinct = distinct script; non-trivial = at least two calls or one duplicate / foreign / cancel / equal-token event."
 	emit := func(sc c3Script, fam string) {
+		if c3Hangs >= 3 && a.only == "" {
+			return // enough hung cases to report; do not spend the watchdog time on every further case
+		}
 		txt := runC3Script(sc)
 		nt := false
 		ncalls := 0
